@@ -104,7 +104,7 @@ theorem processEnvironment_eq (g : G) (env : Str → Option Str) :
 inductive CfgItem
   | set (i : Nat) (arg : Option Str)
   | usage
-  deriving Repr
+  deriving Repr, DecidableEq
 
 /-- what one line of a config file asks for — a function of the option table alone -/
 def cfgItem (opts : List Opt) (line : Str) : Option CfgItem :=
@@ -188,7 +188,7 @@ theorem processConfigfile_eq (g : G) (content : Str) :
 inductive CmdItem
   | set (i : Nat) (arg : Option Str) (kfail : Nat)   -- a `set_option` call; `kfail` = optind if it fails
   | stop (st : Status) (msg : Bool) (k : Nat)          -- parsing ends: end of options (`ok`) or usage error, optind `k`
-  deriving Repr
+  deriving Repr, DecidableEq
 
 /-- parse one optstring; second component: `some extra` = go on (next element consumed?), `none` = stopped -/
 def parseStd (opts : List Opt) (k : Nat) : Str → Option Str → List CmdItem × Option Bool
